@@ -251,6 +251,23 @@ ADDED4 = {
 }
 
 
+ADDED5 = {
+ 'C02': ('', ' Round 5: received header bytes become text only by UTF-8 decoding (no per-byte cast, no lossy decoder).'),
+ 'C04': ('', ' Round 5: every route builder appends on every path and no registered entry\'s pattern or handler is rewritten in place.'),
+ 'C06': ('', ' Round 5: a served file is read whole (read_to_end / read_to_string), never with a single read / read_buf.'),
+ 'C08': ('', ' Round 5: the shared worker list is never shortened or reordered; the recovery thread joins the dead worker before its slot is given to the replacement.'),
+ 'C09': ('', ' Round 5: same-named header fields keep their order in the relayed request (the shared header-order rule).'),
+ 'C10': ('', ' Round 5: no header field is extracted after the two-byte header buffer was reused for the extended length.'),
+ 'C12': ('', ' Round 5: the poll of a stream does not depend on which handlers are registered.'),
+ 'C13': ('', ' Round 5: insignificant whitespace — from every token end to the next look at the input a flush_whitespace is passed (directly or as the callee\'s first act).'),
+ 'C14': ('', ' Round 5: the expansion corpus has fixed members with raw-identifier fields and doc-commented renamed fields / variants (both derives must choose the same key).'),
+ 'C15': ('', ' Round 5: the Result of every fallible loader step is tested, propagated or mapped-and-collected into a Result (a faulty host / route cannot silently disappear).'),
+ 'C17': ('', ' Round 5: the stored side of the token comparison is the session\'s own token (no default standing in for a user without a session).'),
+ 'C19': ('', ' Round 5: header names are matched case-insensitively (the header-name table rule of C02), so X-Forwarded-For is seen under any capitalisation.'),
+ 'C20': ('', ' Round 5: no reachable panic in the accept cycle (panic-site inventory of the accept closure; reviewed entries re-checked).'),
+}
+
+
 NOT_APPLICABLE = {
     "C05": "Correctness of the wildcard matcher is a language-equivalence fact about a loop with data-dependent backtracking over all "
            "(pattern, text) pairs; no necessary condition visible in the shape of the code separates the current (wrong on '*aab'/'aaab') "
@@ -275,6 +292,8 @@ def main():
                 tech, text = tech + ADDED3[pid][0], text + ADDED3[pid][1]
             if pid in ADDED4:
                 tech, text = tech + ADDED4[pid][0], text + ADDED4[pid][1]
+            if pid in ADDED5:
+                tech, text = tech + ADDED5[pid][0], text + ADDED5[pid][1]
             checks.append({
                 "property_id": pid,
                 "quick_cmd": f"./check {pid} --tier quick",
